@@ -27,15 +27,17 @@ Lemma enc_items_cons x t : enc_items (x :: t) = enc_item x ++ enc_items t. Proof
 
 Lemma lay1_rsizes h tbl : forall l b off, rsizes (lay1 h tbl b off l) = iszs l.
 Proof.
-  induction l as [|d rest IH|k seg body rest IHb IH] using items_ind; intros b off; [reflexivity| |].
+  induction l as [|d rest IH|k seg body rest IHb IH|k seg fl body rest IHb IH] using items_ind; intros b off; [reflexivity| | |].
   - rewrite lay1_cons, rsizes_app, IH, iszs_cons. reflexivity.
   - rewrite lay1_cons, rsizes_app, IH, iszs_cons, lay1_dev, isz_dev. cbn [rsizes fold_right]. rewrite !rsize_eq.
     cbn [rsizes fold_right]. rewrite !rsize_eq. fold (rsizes (lay1 h tbl (b + 3) (off + 2 + k + 4) body)). rewrite IHb. cbn [rsizes fold_right]. lia.
+  - rewrite lay1_cons, rsizes_app, IH, iszs_cons, lay1_meth, isz_meth. cbn [rsizes fold_right]. rewrite !rsize_eq.
+    cbn [rsizes fold_right]. rewrite !rsize_eq. fold (rsizes (lay1 h tbl (b + 4) (off + 1 + k + 5) body)). rewrite IHb. cbn [rsizes fold_right]. lia.
 Qed.
 
 Lemma lay1_nodes h tbl : forall l b off x, In x (rnodesl (lay1 h tbl b off l)) -> b <= x < b + N.of_nat (iszs l).
 Proof.
-  induction l as [|d rest IH|k seg body rest IHb IH] using items_ind; intros b off x Hx; [contradiction| |].
+  induction l as [|d rest IH|k seg body rest IHb IH|k seg fl body rest IHb IH] using items_ind; intros b off x Hx; [contradiction| | |].
   - rewrite lay1_cons, rnodesl_app in Hx. rewrite iszs_cons. apply in_app_or in Hx. destruct Hx as [Hx|Hx].
     + cbn [lay1_item rnodesl flat_map rnodes app In] in Hx. cbn [isz]. lia.
     + apply IH in Hx. cbn [isz] in *. lia.
@@ -44,6 +46,11 @@ Proof.
       destruct Hx as [<-|Hx]; [lia|]. unfold rnodesl in Hx. cbn [flat_map] in Hx. rewrite !rnodes_eq in Hx. cbn [rnodesl flat_map app] in Hx.
       destruct Hx as [<-|[<-|Hx]]; [lia|lia|]. rewrite app_nil_r in Hx. apply IHb in Hx. lia.
     + apply IH in Hx. rewrite isz_dev in Hx. lia.
+  - rewrite lay1_cons, rnodesl_app in Hx. rewrite iszs_cons, isz_meth. apply in_app_or in Hx. destruct Hx as [Hx|Hx].
+    + rewrite lay1_meth in Hx. unfold rnodesl in Hx. cbn [flat_map] in Hx. rewrite app_nil_r, rnodes_eq in Hx.
+      destruct Hx as [<-|Hx]; [lia|]. unfold rnodesl in Hx. cbn [flat_map] in Hx. rewrite !rnodes_eq in Hx. cbn [rnodesl flat_map app] in Hx.
+      destruct Hx as [<-|[<-|[<-|Hx]]]; [lia|lia|lia|]. rewrite app_nil_r in Hx. apply IHb in Hx. lia.
+    + apply IH in Hx. rewrite isz_meth in Hx. lia.
 Qed.
 
 (** ---- what the first pass does to the forest and the payloads ---- *)
@@ -190,6 +197,39 @@ Proof.
         rewrite A5 by lia. rewrite HK. destruct (N.eqb_spec (b + 1) b); [lia|]. destruct (N.eqb_spec (b + 1) sc); [lia|]. apply Hoob. lia.
       * constructor; [rewrite (Hp 2) by lia; reflexivity| |exact A4].
         rewrite A3. rewrite HK. destruct (N.eqb_spec (b + 2) b); [lia|]. destruct (N.eqb_spec (b + 2) sc); [lia|]. rewrite (Hoob (b + 2)) by lia. reflexivity.
+  - intros x Hx Hne. rewrite A5 by lia. rewrite HK. destruct (N.eqb_spec x b); [lia|]. apply N.eqb_neq in Hne. rewrite Hne. reflexivity.
+  - intros x Hx. rewrite A6 by lia. unfold pl1. apply pget_app_old. exact Hx.
+Qed.
+
+Lemma post1_meth g pl sc g2 pl2 h tbl k seg fl body off :
+  sc < N.of_nat (length pl) -> length (g_kids g) = length pl ->
+  Post1 (g_meth g sc) (pl ++ [mth_pay h off name_zero; pth_pay h tbl (off + 1 + k); byt_pay h (off + 1 + k + 4) fl; sb_pay h (off + 1 + k + 5)]) g2 pl2
+        (N.of_nat (length pl) + 3) (lay1 h tbl (N.of_nat (length pl) + 4) (off + 1 + k + 5) body) ->
+  Post1 g pl g2 pl2 sc (lay1_item h tbl (N.of_nat (length pl)) off (IMeth k seg fl body)).
+Proof.
+  intros Hsc Hlg [A1 A2 A3 A4 A5 A6]. set (b := N.of_nat (length pl)) in *.
+  set (pl1 := pl ++ [mth_pay h off name_zero; pth_pay h tbl (off + 1 + k); byt_pay h (off + 1 + k + 4) fl; sb_pay h (off + 1 + k + 5)]) in *.
+  assert (Hl1 : N.of_nat (length pl1) = b + 4) by (unfold pl1, b; rewrite app_length; cbn [length]; lia).
+  assert (HK : forall i, kids (g_meth g sc) i = if i =? b then [b + 1; b + 2; b + 3] else if i =? sc then kids g sc ++ [b] else kids g i).
+  { intros i. rewrite kids_g_meth by (rewrite Hlg; exact Hsc). cbv zeta. rewrite Hlg. reflexivity. }
+  assert (Hoob : forall i, b <= i -> kids g i = []) by (intros i Hi; apply kids_oob; rewrite Hlg; exact Hi).
+  assert (Hp : forall c, c < 4 -> pget pl2 (b + c) = pget [mth_pay h off name_zero; pth_pay h tbl (off + 1 + k); byt_pay h (off + 1 + k + 4) fl; sb_pay h (off + 1 + k + 5)] c).
+  { intros c Hc. rewrite A6 by lia. unfold pl1, b. apply pget_app_new. }
+  rewrite lay1_meth. fold b. constructor.
+  - exact A1.
+  - rewrite A2. unfold pl1. rewrite app_length. cbn [length rsizes fold_right]. rewrite !rsize_eq. cbn [rsizes fold_right]. rewrite !rsize_eq.
+    cbn [rsizes fold_right]. fold (rsizes (lay1 h tbl (b + 4) (off + 1 + k + 5) body)). lia.
+  - rewrite A5 by lia. rewrite HK. destruct (N.eqb_spec sc b); [lia|]. rewrite N.eqb_refl. reflexivity.
+  - constructor; [|constructor]. constructor.
+    + rewrite <- (N.add_0_r b). rewrite (Hp 0) by lia. reflexivity.
+    + rewrite A5 by lia. rewrite HK, N.eqb_refl. reflexivity.
+    + constructor; [|constructor; [|constructor; [|constructor]]].
+      * constructor; [rewrite (Hp 1) by lia; reflexivity| |constructor].
+        rewrite A5 by lia. rewrite HK. destruct (N.eqb_spec (b + 1) b); [lia|]. destruct (N.eqb_spec (b + 1) sc); [lia|]. apply Hoob. lia.
+      * constructor; [rewrite (Hp 2) by lia; reflexivity| |constructor].
+        rewrite A5 by lia. rewrite HK. destruct (N.eqb_spec (b + 2) b); [lia|]. destruct (N.eqb_spec (b + 2) sc); [lia|]. apply Hoob. lia.
+      * constructor; [rewrite (Hp 3) by lia; reflexivity| |exact A4].
+        rewrite A3. rewrite HK. destruct (N.eqb_spec (b + 3) b); [lia|]. destruct (N.eqb_spec (b + 3) sc); [lia|]. rewrite (Hoob (b + 3)) by lia. reflexivity.
   - intros x Hx Hne. rewrite A5 by lia. rewrite HK. destruct (N.eqb_spec x b); [lia|]. apply N.eqb_neq in Hne. rewrite Hne. reflexivity.
   - intros x Hx. rewrite A6 by lia. unfold pl1. apply pget_app_old. exact Hx.
 Qed.
@@ -401,12 +441,101 @@ Proof.
   rewrite app_nil_r in Hx. apply lay1_nodes in Hx. cbn [iszs fold_right] in Hx. rewrite isz_dev in Hx. rewrite Hl2. unfold b in *. lia.
 Qed.
 
+Lemma ispec_meth k seg fl body rest : ISpec body -> ISpec rest -> ISpec (IMeth k seg fl body :: rest).
+Proof.
+  intros IHb IH fo fi off e t sc ss es g pl pre post a R Q H Hfree Hroom Hd Ho He Hel Hok Hbal Hsc Hlsc HR Hfi Hfo K.
+  apply forallb_item_cons in Hok. destruct Hok as [Hd_ok Hok]. cbn [item_okb] in Hd_ok.
+  apply andb_prop in Hd_ok. destruct Hd_ok as [Hx Hbody_ok]. apply andb_prop in Hx. destruct Hx as [Hx Hpk].
+  apply andb_prop in Hx. destruct Hx as [Hx Hfl]. apply N.ltb_lt in Hfl.
+  apply andb_prop in Hx. destruct Hx as [Hlead _]. apply pkglen_okb_adm in Hpk.
+  rewrite iszs_cons, isz_meth in Hroom. rewrite icnts_cons, icnt_meth in Hfi, Hfo.
+  rewrite enc_items_cons, enc_meth in Hd, He. subst off.
+  set (v := k + lenN (seg_bytes seg ++ [fl] ++ enc_items body)) in *.
+  assert (Hv : v = k + 5 + lenN (enc_items body)) by (unfold v; rewrite !lenN_app; change (lenN (seg_bytes seg)) with 4; change (lenN [fl]) with 1; lia).
+  pose proof (lenN_enc_pkglen k v Hpk) as Hlk.
+  pose proof (rep_len_g _ _ _ H) as Hlg. pose proof (rep_len_pool _ _ _ H) as Hlp.
+  assert (Hsclt : sc < N.of_nat (length pl)) by (eapply pget_lt; eauto).
+  assert (Ef : exists f', fi = S (S (S (S (S (S (S (S f')))))))) by (exists (fi - 8)%nat; lia). destruct Ef as (f' & ->).
+  set (s0 := st1 (lenN pre) e t (sc :: ss) (e :: es)).
+  assert (HlenI : lenN (enc_op OP_METHOD ++ enc_pkglen k v ++ seg_bytes seg ++ [fl] ++ enc_items body) = 1 + v).
+  { rewrite !lenN_app, Hlk. change (lenN (enc_op OP_METHOD)) with 1. change (lenN (seg_bytes seg)) with 4. change (lenN [fl]) with 1. lia. }
+  rewrite lenN_app, HlenI in He.
+  assert (Hat0 : at_token (p_r s0) pre (enc_op aml_pOpMethod ++ enc_pkglen k v ++ seg_bytes seg ++ [fl] ++ (enc_items body ++ enc_items rest)) post).
+  { apply mk_at; [ |reflexivity| |exact Hel|exact Hlen|exact Hsmall|exact Hbytes].
+    - rewrite Hd. change aml_pOpMethod with OP_METHOD. rewrite <- !app_assoc. reflexivity.
+    - rewrite !lenN_app, Hlk. change (lenN (enc_op aml_pOpMethod)) with 1. change (lenN (seg_bytes seg)) with 4. change (lenN [fl]) with 1. lia. }
+  (* the header *)
+  apply wp_list_cont_S. unfold eofM, rq. apply wp_bind, wp_get.
+  assert (Hne : eof (p_r s0) = false).
+  { change (enc_op aml_pOpMethod) with [0x14] in Hat0. cbn [app] in Hat0. apply (at_not_eof _ _ _ _ _ Hat0). }
+  rewrite Hne.
+  apply wp_bind. eapply wp_conseq.
+  { eapply (next_meth _ s0 g pl pre k v seg fl _ post sc ss a);
+      [exact H|exact Hfree|lia|exact Hat0|exact Hpk|lia| |exact Hlead|exact Hfl|reflexivity|exact Hsc|exact Hlsc|reflexivity].
+    cbn [s0 st1 p_r r_len]. lia. }
+  intros res s1 (-> & t1 & -> & H1). change (pres_eqb ROk ROk) with true. cbv iota.
+  set (b := N.of_nat (length pl)) in *.
+  set (off1 := lenN pre + 1 + k + 5). set (e1 := lenN pre + 1 + v).
+  set (pl1 := pl ++ meth_pays s0 (lenN pre) k fl) in *.
+  assert (Hpl1 : pl1 = pl ++ [mth_pay h (lenN pre) name_zero; pth_pay h tbl (lenN pre + 1 + k); byt_pay h (lenN pre + 1 + k + 4) fl; sb_pay h (lenN pre + 1 + k + 5)]) by reflexivity.
+  assert (Hl1 : length pl1 = S (S (S (S (length pl))))) by (rewrite Hpl1, app_length; cbn [length]; lia).
+  set (s1 := st1 off1 e1 t1 (b + 3 :: sc :: ss) (e1 :: e :: es)).
+  assert (Es1 : after_meth s0 off1 e1 t1 = s1).
+  { unfold after_meth, s1, s0, st1. scbn. unfold set_pkgEnd_raw, set_offset_raw. cbn [r_data r_len r_offset r_pkgEnd p_r p_tree]. rewrite <- Hlp. reflexivity. }
+  rewrite Es1.
+  (* the body *)
+  set (pre1 := pre ++ enc_op OP_METHOD ++ enc_pkglen k v ++ seg_bytes seg ++ [fl]).
+  assert (Hlp1 : lenN pre1 = off1).
+  { unfold pre1, off1. rewrite !lenN_app, Hlk. change (lenN (enc_op OP_METHOD)) with 1. change (lenN (seg_bytes seg)) with 4. change (lenN [fl]) with 1. lia. }
+  assert (Hsb1 : pget pl1 (b + 3) = Some (sb_pay h (lenN pre + 1 + k + 5))).
+  { rewrite Hpl1. unfold b. rewrite pget_app_new. reflexivity. }
+  eapply (IHb fo _ off1 e1 t1 (b + 3) (sc :: ss) (e :: es) _ pl1 pre1 (enc_items rest ++ post) _ (icnts rest + R + 1)%nat Q);
+    [exact H1|reflexivity|rewrite Hl1; lia| |symmetry; exact Hlp1| | |exact Hbody_ok|cbn [length]; rewrite Hbal; reflexivity|exact Hsb1|discriminate|lia|lia|lia|].
+  { unfold pre1. rewrite Hd. rewrite <- !app_assoc. reflexivity. }
+  { rewrite Hlp1. unfold off1, e1. lia. }
+  { unfold e1. lia. }
+  intros t2 g2 pl2 fo2 fi2 H2 P2 Hfi2 Hfo2.
+  (* the end of the block *)
+  destruct fi2 as [|fi2']; [lia|]. apply wp_list_cont_S. unfold eofM, rq. apply wp_bind, wp_get.
+  assert (Eeof : eof (p_r (st1 (off1 + lenN (enc_items body)) e1 t2 (b + 3 :: sc :: ss) (e1 :: e :: es))) = true).
+  { unfold eof. cbn [st1 p_r r_pkgEnd r_offset]. apply N.leb_le. unfold e1, off1. lia. }
+  rewrite Eeof.
+  destruct fo2 as [|fo2']; [lia|].
+  apply wp_list_end; [exact Hbal|exact Hel|].
+  (* the rest *)
+  set (pre2 := pre1 ++ enc_items body).
+  assert (Hlp2 : lenN pre2 = off1 + lenN (enc_items body)) by (unfold pre2; rewrite lenN_app, Hlp1; reflexivity).
+  assert (Hl2 : length pl2 = (length pl + 4 + iszs body)%nat).
+  { rewrite (p1_len _ _ _ _ _ _ P2), Hl1, lay1_rsizes. lia. }
+  assert (P02 : Post1 g pl g2 pl2 sc (lay1_item h tbl b (lenN pre) (IMeth k seg fl body))).
+  { apply post1_meth; [exact Hsclt|exact Hlg|]. rewrite <- Hpl1. fold b.
+    replace (b + 4) with (N.of_nat (length pl1)) by lia. exact P2. }
+  assert (Hsc2 : pget pl2 sc = Some a).
+  { rewrite (p1_old_p _ _ _ _ _ _ P02) by exact Hsclt. exact Hsc. }
+  eapply (IH fo2' _ (off1 + lenN (enc_items body)) e t2 sc ss es g2 pl2 pre2 post a R Q);
+    [exact H2|apply (p1_free _ _ _ _ _ _ P2)|rewrite Hl2; lia| |symmetry; exact Hlp2| |exact Hel|exact Hok|exact Hbal|exact Hsc2|exact Hlsc|exact HR|lia|lia|].
+  { unfold pre2, pre1. rewrite Hd. rewrite <- !app_assoc. reflexivity. }
+  { rewrite Hlp2. unfold off1. lia. }
+  intros t3 g3 pl3 fo3 fi3 H3 P3 Hfi3 Hfo3.
+  specialize (K t3 g3 pl3 fo3 fi3 H3).
+  rewrite lay1_cons, isz_meth in K. fold b in K.
+  replace (b + N.of_nat (4 + iszs body)) with (N.of_nat (length pl2)) in K by (rewrite Hl2; unfold b; lia).
+  rewrite enc_items_cons, lenN_app, enc_meth in K. fold v in K. rewrite HlenI in K.
+  replace (lenN pre + (1 + v)) with (off1 + lenN (enc_items body)) in K by (unfold off1; lia).
+  replace (lenN pre + (1 + v + lenN (enc_items rest))) with (off1 + lenN (enc_items body) + lenN (enc_items rest)) in K by (unfold off1; lia).
+  apply K; [|exact Hfi3|exact Hfo3].
+  eapply Post1_app; [exact Hsclt| |exact P02|exact P3].
+  intros x Hx. change (lay1_item h tbl b (lenN pre) (IMeth k seg fl body)) with (lay1 h tbl b (lenN pre) [IMeth k seg fl body] ++ []) in Hx.
+  rewrite app_nil_r in Hx. apply lay1_nodes in Hx. cbn [iszs fold_right] in Hx. rewrite isz_meth in Hx. rewrite Hl2. unfold b in *. lia.
+Qed.
+
 Theorem ispec_all : forall its, ISpec its.
 Proof.
-  induction its as [|d rest IH|k seg body rest IHb IH] using items_ind.
+  induction its as [|d rest IH|k seg body rest IHb IH|k seg fl body rest IHb IH] using items_ind.
   - apply ispec_nil.
   - apply ispec_name. exact IH.
   - apply ispec_dev; assumption.
+  - apply ispec_meth; assumption.
 Qed.
 End ItemsSpec.
 
